@@ -33,6 +33,8 @@ class History(object):
     def on_route(self, kind, ind, node_id, dest, pre):
         if kind == "reroute":
             self.rerouting_from = node_id
+            if ind.is_blocked:
+                self._mark("rerouted_blocked_customer")
             if dest.id_number == node_id:
                 self._mark("reroute_to_same_node")
 
